@@ -196,6 +196,18 @@ def cond(t, pol=True):
         return cond(t[2], True) + cond(t[3], True)
     if k == 'bin' and t[1] == '||' and not pol:
         return cond(t[2], False) + cond(t[3], False)
+    if k == 'call' and t[1].split('::')[-1] == 'contains' and t[1].startswith('std::ops::Range') and len(t[2]) == 2:
+        rng, x = t[2]
+        lo = hi = None
+        incl = False
+        if rng is not None and rng[0] == 'call' and rng[1] == 'std::ops::RangeInclusive::new' and len(rng[2]) == 2:
+            lo, hi, incl = rng[2][0], rng[2][1], True
+        elif rng is not None and rng[0] == 'struct' and rng[1] == 'std::ops::Range':
+            d = dict(rng[2])
+            lo, hi = d.get('start'), d.get('end')
+        if lo is not None and hi is not None:
+            inside = ('bin', '&&', ('bin', '<=', lo, x), ('bin', '<=' if incl else '<', x, hi))
+            return cond(inside, pol)
     if k == 'call' and t[1] in _TESTS and len(t[2]) == 1:
         p = _TESTS[t[1]]
         return [(S.show(t[2][0]), p if pol else negate_pred(p))]
